@@ -13,8 +13,16 @@ runtime behaviour; the model predicts where they *cannot* happen):
   site where a body indexes / unwraps `args[i]` is justified by the declared parameter (or, for the receiver of a
   method, by class dispatch — envelope E16 `receiverOk`); there is no list of exceptions any more (D22, D24 repaired);
   `C16_unwraps_safe` / `C16_natives_safe` lift the table check to *all* accepted argument lists;
-* `C16_result_unwraps_none`, `C16_field_unwraps_listed` — no result of a user callback is unwrapped unchecked (D23
-  repaired); the unchecked unwraps of an assignable instance field are exactly the committed ones (DC16.5, open);
+* `C16_result_unwraps_none`, `C16_field_unwraps_none` — no result of a user callback is unwrapped unchecked (D23
+  repaired); no assignable instance field is unwrapped unchecked, directly or through a name it was bound to — the one
+  unwrap there is (`get_regex!`, the RegExp pattern) sits behind a test of its kind (DC16.5 repaired);
+* `C16_hook_signals_handled`, `C16_hook_never_panics_on_resolved_call` — `run_fun` / `run_method` have an arm for every
+  signal the functions behind `resolve_call` can answer, the exit of a native called directly included (DC16.10 repaired);
+* `C16_no_std_sort_in_natives` — no native sorts with `slice::sort_by` and its relatives, which panic on a comparator that is
+  not a total order (DC16.15 repaired);
+* `C16_display_depth_bounded`, `C16_display_terminates`, `C16_display_bound_text` — `Display` of a value nests at most
+  `DISPLAY_MAX_DEPTH` activations of `fmt_nested` and terminates on every object graph, cyclic or not; the `Display` impls
+  that write nested values go through `fmt_nested` (DC16.11 repaired);
 * `C16_frame_limit`, `C16_frame_limit_always`, `C16_frame_limit_from_any_state`, `C16_stack_overflow_at_limit` — every
   push of a call frame (Laythe frame or native stub frame) sits behind `frames().len() >= MAX_FRAME_SIZE`
   (`C16_frame_guard_text`): along **every** sequence of calls, native entries/exits and returns the frame count never
@@ -369,10 +377,16 @@ theorem C16_natives_safe (r : NativeRow) (hr : r ∈ natives)
     (`hooks.call`, `hooks.call_method`, a `str()` result on the VM stack) unwrapped without a test -/
 theorem C16_result_unwraps_none : resultUnwraps = [] := by decide
 
-/-- **C16_field_unwraps_listed** — the unchecked unwraps of an assignable instance field, in laythe_lib and in the VM
-    (`Fiber::print_error` no longer unwraps the message of an uncaught error: DC16.4 repaired), are exactly these (DC16.5, open) -/
-theorem C16_field_unwraps_listed :
-    fieldUnwraps = [
+/-- **C16_field_unwraps_none** — nowhere in laythe_lib or in the VM is an assignable instance field unwrapped without a test
+    of its kind, neither directly (`instance[0].to_obj().to_str()`) nor through a name the field was bound to
+    (`Fiber::print_error` writes the message of an uncaught error with `Display`: DC16.4 repaired; `get_regex!` tests the
+    pattern field before it unwraps it: DC16.5 repaired) -/
+theorem C16_field_unwraps_none : fieldUnwraps = [] := by decide
+
+/-- the unwraps of an instance field that exist sit behind a test of the same kind: the RegExp pattern (so the theorem
+    above is not true for want of field reads) -/
+theorem C16_field_unwraps_guarded :
+    guardedFieldUnwraps = [
       ("laythe_lib/src/regexp/class.rs", "macro get_regex!", "instance[0]", .ok .string)] := by decide
 
 /-- **C16_stackless_callbacks_listed** — natives with `NativeEnvironment::StackLess` (no stub frame) whose body can run
@@ -513,6 +527,164 @@ theorem C16_native_at_limit_then_calls (n : Nat) :
   induction n with
   | zero => simp [frameRun]
   | succ n ih => simp only [List.replicate_succ, frameRun, frameStep, hg, if_true]; exact ih
+
+/-! ## the hooks and the signal of the call they resolve (DC16.10) -/
+
+/-- the text: the three places outside the interpreter loop that match on `resolve_call`.  `run_fun` / `run_method` resolve a
+    callable handed in by a native (any callable of the program); `runtime_error` resolves one of the VM's own error
+    classes, whose initialiser is the native `Error.init` (it never exits): its match has no `Exit` arm. -/
+theorem C16_resolve_call_matches_text :
+    Limits.resolveCallMatches.map (fun m => (m.1, m.2.1, m.2.2.1)) = [
+      ("vm/error.rs:runtime_error", "val!(error)", ["Ok", "OkReturn", "RuntimeError"]),
+      ("vm/hooks.rs:run_fun", "callable", ["Ok", "OkReturn", "RuntimeError", "Exit"]),
+      ("vm/hooks.rs:run_method", "method", ["Ok", "OkReturn", "RuntimeError", "Exit"])] ∧
+    Limits.toCallResultPanics = ["CompileError"] := by decide
+
+/-- the model's `hookStep` is the match of the text: a signal has an arm of its own in `run_fun` and in `run_method` iff the
+    model does not answer `internalError` -/
+theorem C16_hookStep_eq_gen : ∀ m ∈ Limits.resolveCallMatches, m.1 = "vm/hooks.rs:run_fun" ∨ m.1 = "vm/hooks.rs:run_method" →
+    ∀ s ∈ Signal.all, (m.2.2.1.contains s.name) = (hookStep s != .internalError) := by decide
+
+theorem Signal_all_complete (s : Signal) : s ∈ Signal.all := by cases s <;> decide
+
+/-- every signal named in the text of a function behind `resolve_call` is one of the model's `resolvedCallSignals` -/
+theorem C16_call_family_signals : ∀ f ∈ Limits.callFamily, ∀ n ∈ f.2, ∃ s ∈ resolvedCallSignals, s.name = n := by decide
+
+/-- the functions behind `resolve_call` (an added function that answers a signal re-opens this) -/
+theorem C16_call_family_text :
+    Limits.callFamily.map (·.1) = ["call", "call_class", "call_closure", "call_method", "call_native", "check_arity",
+      "check_native_arity", "resolve_call", "runtime_error", "runtime_error_from_str", "set_error", "set_exit"] := by decide
+
+/-- **C16_hook_signals_handled** — table form: `run_fun` and `run_method` have an arm of their own for every signal the text
+    of the functions behind `resolve_call` names (before the repair of DC16.10: `Exit`, answered by `call_native` through
+    `set_exit`, fell into the `_` arm: `Unexpected signal in run_fun.`) -/
+theorem C16_hook_signals_handled : ∀ m ∈ Limits.resolveCallMatches, m.1 = "vm/hooks.rs:run_fun" ∨ m.1 = "vm/hooks.rs:run_method" →
+    ∀ f ∈ Limits.callFamily, ∀ n ∈ f.2, n ∈ m.2.2.1 := by decide
+
+/-- **C16_hook_never_panics_on_resolved_call** — model form: whatever signal a resolved call comes back with, the hook does
+    not reach `internal_error` -/
+theorem C16_hook_never_panics_on_resolved_call (s : Signal) (h : s ∈ resolvedCallSignals) : hookStep s ≠ .internalError := by
+  cases s <;> simp [resolvedCallSignals] at h <;> simp [hookStep]
+
+/-- and the exit of a directly called native is handed on as an exit -/
+example : hookStep .exit = .exit ∧ hookStep .contextSwitch = .internalError := by decide
+
+/-- **C16_no_std_sort_in_natives** — no native sorts with a sorting routine of the Rust standard library: those panic
+    (`user-provided comparison function does not correctly implement a total order`) when they notice an inconsistent
+    comparator, and the only order Laythe values have is the program's comparator (`List.sort` runs the stable merge sort
+    written out in list.rs: DC16.15 repaired) -/
+theorem C16_no_std_sort_in_natives : Limits.libStdSorts = [] := by decide
+
+/-! ## `Display` of a value: bounded native recursion (DC16.11) -/
+
+/-- the text: the bound, the test of `fmt_nested`, and which `Display` impls behind `ObjectRef`'s `Display` write another value
+    (third component) through `fmt_nested` (fourth).  The two that write one outside it cannot nest: a `LyBox` (the cell of a
+    captured variable) is not a first-class value and never holds a box, a `Closure` writes its `Fun`, whose `Display` is flat. -/
+theorem C16_display_bound_text :
+    Limits.displayMaxDepth = 64 ∧
+    Limits.displayGuard = "displaying.len() >= DISPLAY_MAX_DEPTH || displaying.contains(&address)" ∧
+    (Limits.displayImpls.filter (fun r => r.2.2.1)).map (fun r => (r.1, r.2.2.2)) =
+      [("List", true), ("Map", true), ("LyBox", false), ("Closure", false), ("Method", true), ("Tuple", true)] := by decide
+
+theorem displayRefuses_of_full (displaying : List Nat) (a : Nat) (h : displaying.length ≥ Limits.displayMaxDepth) :
+    displayRefuses displaying a = true := by
+  simp [displayRefuses, h]
+
+/-- folding `max` over the children keeps a bound that holds for the start value and for every child -/
+theorem displayFold_bound (f : Nat → Option Nat) (b : Nat) (hf : ∀ c d, f c = some d → d ≤ b) :
+    ∀ (cs : List Nat) (init : Option Nat) (r : Nat), (∀ m, init = some m → m ≤ b) →
+      cs.foldl (fun acc c => match acc, f c with
+                             | some m, some d => some (max m d)
+                             | _, _ => none) init = some r → r ≤ b := by
+  intro cs
+  induction cs with
+  | nil => intro init r hi h; simp at h; exact hi r h
+  | cons c cs ih =>
+    intro init r hi h
+    simp only [List.foldl_cons] at h
+    refine ih _ r ?_ h
+    intro m hm
+    cases hinit : init with
+    | none => simp [hinit] at hm
+    | some m0 =>
+      cases hc : f c with
+      | none => simp [hinit, hc] at hm
+      | some d =>
+        simp [hinit, hc] at hm
+        have h1 := hi m0 hinit
+        have h2 := hf c d hc
+        omega
+
+/-- **C16_display_depth_bounded** — on every object graph (cycles, any depth), from any set of objects in progress that
+    respects the bound, the nesting of `fmt_nested` activations never exceeds `DISPLAY_MAX_DEPTH` -/
+theorem C16_display_depth_bounded (g : DisplayGraph) : ∀ (fuel : Nat) (displaying : List Nat) (a d : Nat),
+    displaying.length ≤ Limits.displayMaxDepth → displayDepth g fuel displaying a = some d → d ≤ Limits.displayMaxDepth := by
+  intro fuel
+  induction fuel with
+  | zero => intro displaying a d _ h; simp [displayDepth] at h
+  | succ fuel ih =>
+    intro displaying a d hlen h
+    simp only [displayDepth] at h
+    by_cases hr : displayRefuses displaying a = true
+    · simp [hr] at h; omega
+    · simp only [hr] at h
+      have hlt : displaying.length < Limits.displayMaxDepth := by
+        rcases Nat.lt_or_ge displaying.length Limits.displayMaxDepth with hlt | hge
+        · exact hlt
+        · exact absurd (displayRefuses_of_full displaying a hge) hr
+      refine displayFold_bound (fun c => displayDepth g fuel (a :: displaying) c) Limits.displayMaxDepth ?_ (g a) _ d ?_ h
+      · intro c d' hd'
+        exact ih (a :: displaying) c d' (by simp; omega) hd'
+      · intro m hm; simp at hm; omega
+
+theorem displayFold_some (f : Nat → Option Nat) (hf : ∀ c, (f c).isSome = true) :
+    ∀ (cs : List Nat) (init : Option Nat), init.isSome = true →
+      (cs.foldl (fun acc c => match acc, f c with
+                              | some m, some d => some (max m d)
+                              | _, _ => none) init).isSome = true := by
+  intro cs
+  induction cs with
+  | nil => intro init hi; simpa using hi
+  | cons c cs ih =>
+    intro init hi
+    simp only [List.foldl_cons]
+    apply ih
+    cases hinit : init with
+    | none => simp [hinit] at hi
+    | some m0 =>
+      cases hc : f c with
+      | none => have := hf c; simp [hc] at this
+      | some d => simp
+
+/-- **C16_display_terminates** — `Display` needs no more nesting than the bound allows on any graph: with
+    `DISPLAY_MAX_DEPTH - (objects in progress) + 1` levels of recursion the model never runs out of fuel (the fuel is a device
+    of the model; the Rust recursion stops because every level adds an object in progress) -/
+theorem C16_display_terminates (g : DisplayGraph) : ∀ (fuel : Nat) (displaying : List Nat) (a : Nat),
+    Limits.displayMaxDepth - displaying.length < fuel → (displayDepth g fuel displaying a).isSome = true := by
+  intro fuel
+  induction fuel with
+  | zero => intro displaying a h; omega
+  | succ fuel ih =>
+    intro displaying a h
+    simp only [displayDepth]
+    by_cases hr : displayRefuses displaying a = true
+    · simp [hr]
+    · simp only [hr]
+      have hlt : displaying.length < Limits.displayMaxDepth := by
+        rcases Nat.lt_or_ge displaying.length Limits.displayMaxDepth with hlt | hge
+        · exact hlt
+        · exact absurd (displayRefuses_of_full displaying a hge) hr
+      apply displayFold_some
+      · intro c
+        apply ih
+        simp; omega
+      · simp
+
+/-- a list that contains itself twice is written once, one level deep; a chain of 100 lists is cut at the bound -/
+example : displayDepth (fun _ => [0, 0]) 65 [] 0 = some 1 ∧ displayText (fun _ => [0, 0]) 65 [] 0 = "[[...], [...]]" := by decide
+example : displayDepth (fun n => if n < 100 then [n + 1] else []) 65 [] 0 = some 64 := by decide +kernel
+example : displayDepth (fun n => if n < 10 then [n + 1] else []) 65 [] 0 = some 11 ∧
+    displayText (fun n => if n < 2 then [n + 1, n + 1] else []) 65 [] 0 = "[[[], []], [[], []]]" := by decide
 
 /-! ## non-callables -/
 
